@@ -277,6 +277,7 @@ CONFUSABLE = ["bin", "txt", "bas", "BAS", "Bin", "TXT", "auto", "bat", "AUTO", "
               ".bas", ".x", ".ab",
               # more than one dot: the catalog name is everything before the LAST dot of the base name; an inner comma is an ordinary
               # character (only a final ",a" is an option)
+              "stra\u00dfe.bas", "d\u0131sk.dat", "\ufb01le.txt", "a.\u017fd",      # upper-cased to ascii by Python (STRASSE.BAS …): stored; `unmodelled` for the model
               "prog.v2.bas", "lib.v1.bin", "lib.v2.bin", "a..b", "x.1.2", "a.b.bas,a", "v1.0.txt", "demo,v2.bas,a", "a,b.txt", "x,a.bas", "n,a.bas,A"]
 # a base name that starts with '-' is an ordinary source once a bare "--" ends the options (Scenario.run spells the command so)
 DASHED = ["-draft.bas", "-x", "--y.dat", "-v", "-c.bin"]
